@@ -684,7 +684,11 @@ func main() {
 				if cls == "required" && genOK {
 					// the generated map validators skip values that are the zero value of their Go type: an empty object held
 					// by a map of objects is not validated, so a required property of the value schema is not demanded there
-					if okWithout, _ := refValid(c.Def, &root, dropEmptyObjectMapValues(defs[c.Def], defs, d, 0)); okWithout {
+					okWithout, _ := refValid(c.Def, &root, dropEmptyObjectMapValues(defs[c.Def], defs, d, 0))
+					if !okWithout {
+						okWithout, _ = refValid(c.Def, &root, dropEmptyObjectMapValues(defs[c.Def], defs, er, 0))
+					}
+					if okWithout {
 						cls = "empty-object-map-value-not-validated"
 					}
 				}
